@@ -85,13 +85,30 @@ def selection(sel: Any) -> Any:
     return tuple(pairs) if sel.get("form") == "tuple" else pairs
 
 
+def with_selection(sel: Any, fn: Any) -> Any:
+    """Call fn(want_tracks object) and remember whether the callee mutated the caller's
+    selection object (a caller may reuse it for the next parse)."""
+    obj = selection(sel)
+    snap = list(obj) if obj is not None else None
+    _tls.sel_mutated = False
+    try:
+        return fn(obj)
+    finally:
+        _tls.sel_mutated = obj is not None and list(obj) != snap
+
+
+def selection_was_mutated() -> bool:
+    return bool(getattr(_tls, "sel_mutated", False))
+
+
 def parse_text(text: str, sel: Any = None, newline: Any = "\n") -> Any:
     from chartparse.chart import Chart
 
     fp = io.StringIO(text, newline=newline)
     if sel is None:
+        _tls.sel_mutated = False
         return Chart.from_file(fp)
-    return Chart.from_file(fp, want_tracks=selection(sel))
+    return with_selection(sel, lambda w: Chart.from_file(fp, want_tracks=w))
 
 
 DOCUMENTED_ERRORS = ("ValueError", "RegexNotMatchError", "MissingRequiredField")
